@@ -369,7 +369,6 @@ func writeReplay(dir, prop string, seed uint64, rf *ReplayFile) string {
 	return path
 }
 
-
 // scenarioInterruptedSwap is a directed prefix: a gang application with 2-3 placeholders, one swap completed, one swap
 // in flight, then a seeded permutation of the interruptions the properties name (release of the last real allocation,
 // confirmation of the in-flight swap, completing timer, placeholder timer, late confirmations). The rest of the
